@@ -5,7 +5,7 @@ import ast
 from typing import Any, Dict, List, Optional, Tuple
 
 from ..callgraph import classes_of
-from ..kit import Ctx, calls, calls_target, kw, loops, normal_paths, rule, short, stores
+from ..kit import Ctx, caller_ok, calls, calls_target, kw, loops, normal_paths, rule, short, stores
 from ..paths import Event, Path
 from ..terms import NONE, Term, key, strip_ver, subterms
 from ..types import elem_type, strip_opt
@@ -83,9 +83,9 @@ def r1(ctx: Ctx) -> None:
     for f, node, cs, nm in sinks:
         for c in cs:
             if c in allowed:
-                ctx.check(f.qualname in allowed[c], f, node, f"sink for {c} records in {f.qualname}", "written only by " + ", ".join(sorted(allowed[c])), f"{f.qualname} calls {nm}")
+                ctx.check(caller_ok(ctx, f, lambda g, c=c: g.qualname in allowed[c]), f, node, f"sink for {c} records in {f.qualname}", "written only by " + ", ".join(sorted(allowed[c])), f"{f.qualname} calls {nm}")
             elif c in runner_logs:
-                ctx.check(f.qualname in (RUN, IT), f, node, f"sink for {c} in {f.qualname}", f"{RUN} | {IT}", f.qualname)
+                ctx.check(caller_ok(ctx, f, lambda g: g.qualname in (RUN, IT)), f, node, f"sink for {c} in {f.qualname}", f"{RUN} | {IT}", f.qualname)
             else:
                 ctx.violated(f, node, f"sink for {c} in {f.qualname}", "a known record class", c)
     # per creator: exactly one sink per created record when a logger is attached, none otherwise
